@@ -23,7 +23,7 @@ RULE = ('cases: seeded worlds (SpaceWorld continuous, DiscreteWorld/GridWorld/Li
         'max(leeway, axis leeway) (seam-aware distance on positive-extent axes of wrapping worlds), in joining order. Non-trivial '
         'query: >=1 agent exactly on a face and the answer is neither empty nor everybody; distinct by (world, population, query).')
 ASSUMPTIONS = ['coordinates and leeways are multiples of 1/8 (exact float arithmetic)', 'F5 (wrap seam ignored) is a known finding, not repaired']
-FLOORS = {'quick': {'worlds_queried_after_their_model_completed': 190, 'agents_carried_beyond_an_edge_by_a_direct_write': 530, 'positions_written_directly': 1557, 'queries_with_an_unbounded_integer_leeway': 243, 'cases_in_mode_debuglog': 209, 'moves_refused_for_a_wrong_typed_coordinate': 1009, 'answers_edited_by_the_caller': 3308, 'namesakes_in_another_world': 3222, 'queries_with_numpy_scalars': 1226, 'queries': 12000, 'queries_nonwrap': 6090, 'queries_wrap': 6070, 'on_face_agents': 5000, 'nonempty_answers': 4795,
+FLOORS = {'quick': {'identical_queries_repeated_after_a_few_changes': 1771, 'worlds_queried_after_their_model_completed': 190, 'agents_carried_beyond_an_edge_by_a_direct_write': 530, 'positions_written_directly': 1557, 'queries_with_an_unbounded_integer_leeway': 243, 'cases_in_mode_debuglog': 209, 'moves_refused_for_a_wrong_typed_coordinate': 1009, 'answers_edited_by_the_caller': 3308, 'namesakes_in_another_world': 3222, 'queries_with_numpy_scalars': 1226, 'queries': 12000, 'queries_nonwrap': 6090, 'queries_wrap': 6070, 'on_face_agents': 5000, 'nonempty_answers': 4795,
                     'empty_answers': 2000, 'negative_leeway_queries': 981, 'axis_leeway_larger': 3000, 'general_leeway_larger': 3000,
                     'query_outside_world': 2000, 'coincident_pairs': 500, 'big_worlds': 8, 'big_queries': 150, 'agents_with_position_subclass_component': 1000, 'second_world_on_same_model': 300, 'reach:Environments.SpaceWorld.get_agents_at': 12000},
           'thorough': {'queries': 1000000, 'on_face_agents': 400000}}
